@@ -470,7 +470,8 @@ def _xyz2thetaphi(x, y, z):
     """
     returns theta, phi in radians relative to the SDSS node at ra=95 degrees
     """
-    phi = arcsin(z)
+    # arctan2 rather than arcsin(z): arcsin loses ~1e-7 degree near the poles
+    phi = arctan2(z, np.sqrt(x * x + y * y))
     theta = arctan2(y, x)
 
     return theta, phi
